@@ -182,3 +182,33 @@ def cond_np(p):
         b = out[:, Dy * Dx:]
         return M, b, np.tile(Sig, (u.shape[0], 1, 1))
     return np.asarray(p["M"], float), np.asarray(p["b"], float), Sig
+
+
+# ----------------------------------------------------------------------------- approximate conditionals
+FEATURE_KINDS = ["lrbf", "lsem"]
+HET_KINDS = ["exp", "cosh", "heaviside", "relu"]
+
+
+@st.composite
+def feature_params(draw, kind, Dx, Dy, Dk, kappa=30.0):
+    """LRBF / LSEM conditional p(y|x) = N(M [x; k(x)] + b, Sigma) (single component)."""
+    p = {"kind": kind, "Dx": Dx, "Dy": Dy, "Dk": Dk,
+         "M": draw(arr((1, Dy, Dx + Dk), -1.5, 1.5)), "b": draw(arr((1, Dy))),
+         "Sigma": draw(spd(1, Dy, kappa=kappa))}
+    if kind == "lrbf":
+        p["mu"] = draw(arr((Dk, Dx), -1.5, 1.5))
+        p["length_scale"] = draw(arr((Dk, Dx), 0.7, 2.5))
+    else:
+        # W[:,0] = offset w0 (non-zero in general), W[:,1:] = weights
+        p["W"] = draw(arr((Dk, Dx + 1), -1.2, 1.2))
+    return p
+
+
+@st.composite
+def het_params(draw, kind, Dx, Dy, Da, Dk, wscale=1.0, kappa=30.0):
+    """Heteroscedastic conditional: mean Mx+b, covariance AA' + A_k diag(link(Wx+w0)) A_k'."""
+    G = draw(spd(1, Da, kappa=kappa, lam_lo=0.5, lam_hi=1.5))
+    A = G[:, :Dy, :]  # full row rank, cond(AA') bounded
+    W = draw(arr((Dk, Dx + 1), -1.0, 1.0)) * wscale
+    return {"kind": kind, "Dx": Dx, "Dy": Dy, "Da": Da, "Dk": Dk, "wscale": wscale,
+            "M": draw(arr((1, Dy, Dx), -1.5, 1.5)), "b": draw(arr((1, Dy))), "A": A, "W": W}
